@@ -191,6 +191,14 @@ theorem xlsb_formula_decoder_depth_bounded (ctx : Ptg.Ctx) (rgce : Ptg.Bytes) :
 theorem xls_defined_name_decoder_no_panic (rgce : Ptg.Bytes) (m : String) :
     Ptg.definedNameXls rgce ≠ .panic m := C14.definedNameXls_no_panic rgce m
 
+/-- **linear work** of the xls sheet loop on ARBITRARY bytes and BoundSheet8 offsets (after /repo edc415f, which the
+    record flood of this check's search found): the body of the per-sheet record loop runs, over ALL sheets together,
+    at most `8·len + 65536 + (number of sheets)` times, however the offsets overlap (before the repair:
+    `sheets × records`, quadratic). It counts loop bodies, not the cost of one body. -/
+theorem xls_sheet_loop_work_linear (env : BiffCells.Env) (stream : Biff.Bytes) (offsets : List Nat) :
+    BiffCells.sheetsWork env stream offsets 0 ≤ 8 * stream.length + 65536 + offsets.length :=
+  (BiffCells.xls_sheet_loop_work_linear env stream offsets).2
+
 /-- record framing + `parse_sst` on ANY byte stream: `Ok` or `Err` within the budget -/
 theorem xls_sst_reader_total (s : Biff.Bytes) :
     (∃ v, Biff.sstFromStream (s.length + 1) s = .ok v) ∨ (∃ e, Biff.sstFromStream (s.length + 1) s = .err e) :=
